@@ -29,27 +29,33 @@ def run(tier, seed):
     exe = bc.build_driver()
     jobs = []
     plan = {}
+    # quick: state-graph runs only for the two epoll variants (poll/select are decided on every history of the
+    # exhaustive depth by their generation runs, and on the state graph in the thorough tier)
+    mc_backends = ("epoll", "epollcl") if q else bc.BACKENDS
     for be in bc.BACKENDS:
-        mc = bc.consts(be, 5 if q else 6, nev=2 if q else 3, masks=(1, 2, 3, 5), keeper=(2,))
+        mc = bc.consts(be, 4 if q else 6, nev=2 if q else 3, masks=(1, 2, 3, 5), keeper=(2,))
         ex = bc.consts(be, 3 if q else 4, nev=2, keeper=(2,))
-        rnd = bc.consts(be, 14 if q else 24, nfd=3, nev=3, keeper=(2,))
+        rnd = bc.consts(be, 12 if q else 24, nfd=3, nev=3, keeper=(2,))
         plan[be] = (mc, ex, rnd)
-        jobs.append((("mc", be), lambda be=be, c=mc: bc.tlc_backend("C05_mc_" + be, c, mode="mc", timeout=1500)))
+        if be in mc_backends:
+            jobs.append((("mc", be), lambda be=be, c=mc: bc.tlc_backend("C05_mc_" + be, c, mode="mc", timeout=1500)))
         jobs.append((("exh", be), lambda be=be, c=ex: bc.tlc_backend("C05_exh_" + be, c, mode="gen", timeout=1500)))
         jobs.append((("rnd", be), lambda be=be, c=rnd: bc.tlc_backend("C05_rnd_" + be, c, mode="gen", emit="EmitSim",
-                                                                        simulate=40 if q else 600, depth=80, seed=seed,
-                                                                        max_hist=400 if q else 6000, timeout=1500)))
-    # the model of the code exhibits the open finding when its trigger is not excluded
+                                                                        simulate=20 if q else 600, depth=80, seed=seed,
+                                                                        max_hist=200 if q else 6000, timeout=1500)))
+    # the model of the code exhibits the open finding when its trigger is not excluded (thorough tier)
     wit = bc.consts("epollcl", 5, nev=2, masks=(1, 2), avoid=False)
-    jobs.append((("wit", "epollcl"), lambda: bc.tlc_backend("C05_witness", wit, mode="mc", invariants=["InterestOK"], timeout=600)))
-    results = bc.run_parallel(jobs, nthreads=7 if q else 4)
+    if not q:
+        jobs.append((("wit", "epollcl"), lambda: bc.tlc_backend("C05_witness", wit, mode="mc", invariants=["InterestOK"], timeout=600)))
+    results = bc.run_parallel(jobs, nthreads=5 if q else 4)
 
     ops = {}
     for be in bc.BACKENDS:
         mc, ex, rnd = plan[be]
-        res, _ = results[("mc", be)]
-        chk.add_tlc("C05_mc_" + be, res)
-        chk.check_coverage(res, ACTIONS, "C05_mc_" + be)
+        if ("mc", be) in results:
+            res, _ = results[("mc", be)]
+            chk.add_tlc("C05_mc_" + be, res)
+            chk.check_coverage(res, ACTIONS, "C05_mc_" + be)
         for kind, c in (("exh", ex), ("rnd", rnd)):
             res, hs = results[(kind, be)]
             name = "C05_%s_%s" % (kind, be)
@@ -74,9 +80,10 @@ def run(tier, seed):
     chk.cov["op_histogram"] = ops
 
     # open finding: model-level witness + canonical scenario on the real library
-    res, _ = results[("wit", "epollcl")]
-    chk.add_tlc("C05_witness", res, expect_ok=False)
-    chk.cov["known_finding_model_witness"] = res.violation
+    if ("wit", "epollcl") in results:
+        res, _ = results[("wit", "epollcl")]
+        chk.add_tlc("C05_witness", res, expect_ok=False)
+        chk.cov["known_finding_model_witness"] = res.violation
     cw = bc.consts("epollcl", 5, nfd=1, nev=1)
     dc = bc.drv_cfg(cw)
     outs = vkit.run_driver(exe, [{"cfg": dc, "h": bc.strip_obs(KNOWN_H)}])
